@@ -409,4 +409,43 @@ theorem gate_fixed_map (ls : List (SLink F)) (now : Nat) (cfg : Cfg) (f : SLink 
       _ = setQG q t c.stallGated c := by rw [hc']
       _ = f c := hq.symm
 
+/-! ## Classic selector: an eligible link with a non-negative score is enough -/
+
+theorem classicGo_some (ls : List (SLink F)) : ∀ (i now : Nat) (b : Nat) (s : Int),
+    classicGo ls i now (some b) s ≠ none := by
+  induction ls with
+  | nil => intro i now b s; simp [classicGo]
+  | cons c rest ih =>
+    intro i now b s
+    unfold classicGo
+    split
+    · exact ih _ _ _ _
+    · dsimp only
+      split
+      · exact ih _ _ _ _
+      · exact ih _ _ _ _
+
+theorem classicGo_picks (ls : List (SLink F)) : ∀ (i now : Nat),
+    (∃ c ∈ ls, isTimedOut c now = false ∧ schedulable c = true ∧ c.stallGated = false ∧ 0 ≤ score c) →
+    classicGo ls i now none (-1) ≠ none := by
+  induction ls with
+  | nil => intro i now h; obtain ⟨c, hc, -⟩ := h; cases hc
+  | cons c rest ih =>
+    intro i now h
+    unfold classicGo
+    split
+    · rename_i hskip
+      obtain ⟨d, hd, h1, h2, h3, h4⟩ := h
+      rcases List.mem_cons.1 hd with rfl | hd
+      · simp [h1, h2, h3] at hskip
+      · exact ih _ _ ⟨d, hd, h1, h2, h3, h4⟩
+    · dsimp only
+      split
+      · exact classicGo_some _ _ _ _ _
+      · rename_i hle
+        obtain ⟨d, hd, h1, h2, h3, h4⟩ := h
+        rcases List.mem_cons.1 hd with rfl | hd
+        · omega
+        · exact ih _ _ ⟨d, hd, h1, h2, h3, h4⟩
+
 end Srtla.SelLemmas
